@@ -203,6 +203,16 @@ func (s *shell) leave() {
 
 // settled: no daemon process is in the middle of starting up or exiting.
 func settled(o snapObs) bool {
+	if o.Lock != 0 {
+		// /proc/locks may still show a process that is already gone from /proc/<pid>/cmdline
+		held := false
+		for _, d := range o.Daemons {
+			held = held || d.Pid == o.Lock
+		}
+		if !held {
+			return false
+		}
+	}
 	for _, d := range o.Daemons {
 		if !d.Listening {
 			return false // before listen, or past closing the listener
